@@ -694,9 +694,26 @@ class PluckVars:
 			if isinstance(parent, Relay) and parent.prop == node:
 				continue
 
+			# 配下のスコープ(クロージャー/ラムダ/リスト内包表記)で宣言された変数は、そのスコープのローカル変数のため除外
+			if cls._declared_in_inner_scope(via, node):
+				continue
+
 			nodes.append(node)
 
 		return nodes
+
+	@classmethod
+	def _declared_in_inner_scope(cls, via: Node, var: Var) -> bool:
+		"""Args: via: ノード var: 変数参照ノード Returns: True = 起点ノード配下のスコープで宣言された変数"""
+		scope = var.parent
+		while scope.full_path != via.full_path:
+			decl_vars = getattr(scope, 'decl_vars', []) if isinstance(scope, IScope) else []
+			if var.domain_name in [decl_var.symbol.domain_name for decl_var in decl_vars]:
+				return True
+
+			scope = scope.parent
+
+		return False
 
 
 class DeclableMatcher:
